@@ -15,6 +15,57 @@ import (
 	"strings"
 )
 
+// c09EffectiveRecover: does fd contain a `defer` whose operand is a function literal that calls
+// recover() DIRECTLY (not inside a nested literal, not through a helper), or a named function of the
+// same file whose body calls recover() directly?  Only such a recover() stops a panic (Go spec:
+// "recover was not called directly by a deferred function" => nil).
+func c09DirectRecover(body *ast.BlockStmt) bool {
+	found := false
+	ast.Inspect(body, func(n ast.Node) bool {
+		if _, ok := n.(*ast.FuncLit); ok {
+			return false // a nested literal is another function
+		}
+		if ce, ok := n.(*ast.CallExpr); ok {
+			if id, ok := ce.Fun.(*ast.Ident); ok && id.Name == "recover" && len(ce.Args) == 0 {
+				found = true
+			}
+		}
+		return true
+	})
+	return found
+}
+
+func c09EffectiveRecover(f *ast.File, fd *ast.FuncDecl) bool {
+	ok := false
+	ast.Inspect(fd.Body, func(n ast.Node) bool {
+		if fl, isLit := n.(*ast.FuncLit); isLit && fl != nil {
+			return false // defers of nested literals protect only those
+		}
+		ds, isDefer := n.(*ast.DeferStmt)
+		if !isDefer {
+			return true
+		}
+		switch fun := ds.Call.Fun.(type) {
+		case *ast.FuncLit:
+			if c09DirectRecover(fun.Body) {
+				ok = true
+			}
+		case *ast.Ident:
+			if t := FindFunc(f, "", fun.Name); t != nil && t.Body != nil && c09DirectRecover(t.Body) {
+				ok = true
+			}
+		case *ast.SelectorExpr:
+			for _, d := range f.Decls {
+				if t, isFn := d.(*ast.FuncDecl); isFn && t.Recv != nil && t.Name.Name == fun.Sel.Name && t.Body != nil && c09DirectRecover(t.Body) {
+					ok = true
+				}
+			}
+		}
+		return false
+	})
+	return ok
+}
+
 func c09Facts2(c *Ctx) error {
 	b := func(name string, v bool) { c.P("Definition %s : bool := %v.", name, v) }
 
@@ -265,6 +316,46 @@ func c09Facts2(c *Ctx) error {
 	if seb == nil {
 		return fmt.Errorf("skyway EndBlocker not found")
 	}
+	b("skyway_endblocker_recover_is_effective", c09EffectiveRecover(sf, seb))
+	smf, err := c.Parse("x/skyway/module.go")
+	if err != nil {
+		return err
+	}
+	if smeb := FindFunc(smf, "AppModule", "EndBlock"); smeb != nil {
+		b("skyway_module_endblock_recover_is_effective", c09EffectiveRecover(smf, smeb))
+	} else {
+		return fmt.Errorf("skyway AppModule.EndBlock not found")
+	}
+	// evm: deploySmartContractToChain contains panics raised while a deployment message is built
+	df, err := c.Parse("x/evm/keeper/smart_contract_deployment.go")
+	if err != nil {
+		return err
+	}
+	dfd := FindFunc(df, "Keeper", "deploySmartContractToChain")
+	if dfd == nil {
+		return fmt.Errorf("deploySmartContractToChain not found")
+	}
+	b("deploy_compass_recover_is_effective", c09EffectiveRecover(df, dfd))
+	// valset.Jail wraps slashing.Jail in a function literal with its own recover
+	vjf, err := c.Parse("x/valset/keeper/keeper.go")
+	if err != nil {
+		return err
+	}
+	jfd := FindFunc(vjf, "Keeper", "Jail")
+	if jfd == nil {
+		return fmt.Errorf("valset Jail not found")
+	}
+	jailOK := false
+	ast.Inspect(jfd.Body, func(n ast.Node) bool {
+		if fl, ok := n.(*ast.FuncLit); ok {
+			tmp := &ast.FuncDecl{Body: fl.Body}
+			if len(Calls(fl.Body, "Jail")) > 0 && c09EffectiveRecover(vjf, tmp) {
+				jailOK = true
+			}
+		}
+		return true
+	})
+	b("valset_jail_recover_is_effective", jailOK)
 	b("skyway_endblocker_recovers", len(seb.Body.List) > 0 && func() bool {
 		// a deferred func with recover() among the first statements, before any step runs
 		for _, st := range seb.Body.List {
@@ -340,6 +431,37 @@ func c09Facts2(c *Ctx) error {
 	wsrc2 := c.Src(wf.Body)
 	b("worthy_guards_zero_total", strings.Contains(wsrc2, "TotalShares.IsZero()") || strings.Contains(wsrc2, "TotalShares.IsPositive()"))
 	b("worthy_first_snapshot_short_circuits", strings.Contains(wsrc2, "if currentSnapshot == nil {"))
+	// ---- x/evm: relay weights are validated when they are set ----
+	{
+		kf2, err := c.Parse("x/evm/keeper/keeper.go")
+		if err != nil {
+			return err
+		}
+		srw := FindFunc(kf2, "Keeper", "SetRelayWeights")
+		if srw == nil {
+			return fmt.Errorf("SetRelayWeights not found")
+		}
+		validated := false
+		if vc := Calls(srw.Body, "Validate"); len(vc) == 1 {
+			var posSave token.Pos
+			for _, ce := range Calls(srw.Body, "Save") {
+				posSave = ce.Pos()
+			}
+			validated = posSave != 0 && vc[0].Pos() < posSave
+			if rf, err := c.Parse("x/evm/types/relay_weights.go"); err == nil {
+				if vf := FindFunc(rf, "RelayWeights", "Validate"); vf != nil {
+					vs := c.Src(vf.Body)
+					validated = validated && strings.Contains(vs, "m.DecValues()") && strings.Contains(vs, "v.value.IsNegative() || v.value.GT(maxRelayWeight)")
+				} else {
+					validated = false
+				}
+			} else {
+				validated = false
+			}
+		}
+		b("relay_weights_validated_when_set", validated)
+	}
+
 	// ---- x/paloma/keeper/keeper.go: the version gate's two comparisons (anything else is an unknown shape) ----
 	pf, err := c.Parse("x/paloma/keeper/keeper.go")
 	if err != nil {
